@@ -1064,6 +1064,34 @@ func (fr *Frame) evalCall(x *ECall, env *evalEnv) (Value, error) {
 		}
 		s := sq.(*SeqV)
 		return &Sc{T: r.seqOf(s.ElemSort, s.Arr, s.Off, s.Len), K: kArr, Sort: "Seq." + sanitize(s.ElemSort)}, nil
+	case "sub":
+		// sub(arr, off, n): abstract sequence of n elements of a ghost array starting at off
+		a, err := arg(0)
+		if err != nil {
+			return nil, err
+		}
+		as, ok := a.(*Sc)
+		if !ok || as.K != kArr {
+			return nil, fmt.Errorf("sub: first argument must be an array")
+		}
+		ov, err := arg(1)
+		if err != nil {
+			return nil, err
+		}
+		nv, err := arg(2)
+		if err != nil {
+			return nil, err
+		}
+		os, err := asInt64(ov)
+		if err != nil {
+			return nil, err
+		}
+		ns, err := asInt64(nv)
+		if err != nil {
+			return nil, err
+		}
+		_, es := arrSorts(as.Sort)
+		return &Sc{T: r.seqOf(es, as.T, os, ns), K: kArr, Sort: "Seq." + sanitize(es)}, nil
 	case "seq":
 		// seq(s): the contents of slice s as an abstract sequence in the current state
 		v, err := arg(0)
@@ -1364,6 +1392,27 @@ func (fr *Frame) applyModifies(m Expr, env *evalEnv, post *postState) error {
 			for _, l := range vl {
 				post.addMod(vc+l.suffix, sArr(sRef, sArr(ks, l.sort)), s.T)
 			}
+			return nil
+		case "writer":
+			// writer(w): the bit cache of BitsWriter w and the ghost state of its sink
+			v, err := fr.evalExpr(x.Args[0], env)
+			if err != nil {
+				return err
+			}
+			ws, ok := v.(*Sc)
+			if !ok || ws.Ty == nil {
+				return fmt.Errorf("writer of %T", v)
+			}
+			stT, u := r.bwStruct(ws.Ty)
+			for _, fn := range []string{"cache", "cacheLen"} {
+				f := fieldByName(u, fn)
+				post.addMod(fieldComp(stT, f), sArr(sRef, sBV(8)), ws.T)
+			}
+			fw := fieldByName(u, "w")
+			sinkRef := sel(r.heap.get(env.state(), fieldComp(stT, fw)+".ref", sArr(sRef, sRef)), ws.T)
+			post.addMod(compSinkN, sortSinkN, sinkRef)
+			post.addMod(compSinkData, sortSinkData, sinkRef)
+			post.addMod(compSinkFails, sortSinkN, sinkRef)
 			return nil
 		case "everything":
 			r.havocAll(post.st)
